@@ -494,6 +494,13 @@ static size_t safec_fp_libc(out_fct_type out, const char *funcname,
     }
     p = buf;
     while (*p != 0) {
+        if (unlikely(buf != sbuf && idx >= maxlen)) {
+            /* this character does not fit and out() is going to report it:
+               release the text first, the handler need not return */
+            const char ch = *p;
+            free(buf);
+            return out(ch, buffer, idx, maxlen);
+        }
         rc = out(*(p++), buffer, idx++, maxlen);
         if (unlikely(rc < 0)) {
             if (buf != sbuf)
@@ -1261,7 +1268,10 @@ int safec_vsnprintf_s(out_fct_type out, const char *funcname, char *buffer,
             if (flags & FLAGS_LONG_DOUBLE) {
                 if (*format) {
                     unsigned off = format - startformat;
-                    char *s = (char *)malloc(off + 1);
+                    /* a directive is short: no allocation that a handler which does
+                       not return would leave behind */
+                    char sb[64];
+                    char *s = off < sizeof(sb) ? sb : (char *)malloc(off + 1);
                     if (!s) {
                         invoke_safe_str_constraint_handler(
                             "vsnprintf_s: malloc failed", buffer, ENOMEM);
@@ -1272,7 +1282,8 @@ int safec_vsnprintf_s(out_fct_type out, const char *funcname, char *buffer,
                     idx = safec_ftoa_long(out, funcname, buffer, idx, bufsize,
                                           va_arg(va, long double), precision,
                                           width, flags, s);
-                    free(s);
+                    if (s != sb)
+                        free(s);
                 } else { // already at end
                     idx = safec_ftoa_long(out, funcname, buffer, idx, bufsize,
                                           va_arg(va, long double), precision,
@@ -1299,7 +1310,10 @@ int safec_vsnprintf_s(out_fct_type out, const char *funcname, char *buffer,
             if (flags & FLAGS_LONG_DOUBLE) {
                 if (*format) {
                     unsigned off = format - startformat;
-                    char *s = (char *)malloc(off + 1);
+                    /* a directive is short: no allocation that a handler which does
+                       not return would leave behind */
+                    char sb[64];
+                    char *s = off < sizeof(sb) ? sb : (char *)malloc(off + 1);
                     if (!s) {
                         invoke_safe_str_constraint_handler(
                             "vsnprintf_s: malloc failed", buffer, ENOMEM);
@@ -1310,7 +1324,8 @@ int safec_vsnprintf_s(out_fct_type out, const char *funcname, char *buffer,
                     idx = safec_etoa_long(out, funcname, buffer, idx, bufsize,
                                           va_arg(va, long double), precision,
                                           width, flags, s);
-                    free(s);
+                    if (s != sb)
+                        free(s);
                 } else {
                     idx = safec_etoa_long(out, funcname, buffer, idx, bufsize,
                                           va_arg(va, long double), precision,
@@ -1332,7 +1347,10 @@ int safec_vsnprintf_s(out_fct_type out, const char *funcname, char *buffer,
             if (flags & FLAGS_LONG_DOUBLE) {
                 if (*format) {
                     unsigned off = format - startformat;
-                    char *s = (char *)malloc(off + 1);
+                    /* a directive is short: no allocation that a handler which does
+                       not return would leave behind */
+                    char sb[64];
+                    char *s = off < sizeof(sb) ? sb : (char *)malloc(off + 1);
                     if (!s) {
                         invoke_safe_str_constraint_handler(
                             "vsnprintf_s: malloc failed", buffer, ENOMEM);
@@ -1343,7 +1361,8 @@ int safec_vsnprintf_s(out_fct_type out, const char *funcname, char *buffer,
                     idx = safec_atoa_long(out, funcname, buffer, idx, bufsize,
                                           va_arg(va, long double), precision,
                                           width, flags, s);
-                    free(s);
+                    if (s != sb)
+                        free(s);
                 } else {
                     idx = safec_atoa_long(out, funcname, buffer, idx, bufsize,
                                           va_arg(va, long double), precision,
@@ -1354,7 +1373,10 @@ int safec_vsnprintf_s(out_fct_type out, const char *funcname, char *buffer,
             {
                 if (*format) {
                     unsigned off = format - startformat;
-                    char *s = (char *)malloc(off + 1);
+                    /* a directive is short: no allocation that a handler which does
+                       not return would leave behind */
+                    char sb[64];
+                    char *s = off < sizeof(sb) ? sb : (char *)malloc(off + 1);
                     if (!s) {
                         invoke_safe_str_constraint_handler(
                             "vsnprintf_s: malloc failed", buffer, ENOMEM);
@@ -1365,7 +1387,8 @@ int safec_vsnprintf_s(out_fct_type out, const char *funcname, char *buffer,
                     idx = safec_atoa(out, funcname, buffer, idx, bufsize,
                                      va_arg(va, double), precision, width,
                                      flags, s);
-                    free(s);
+                    if (s != sb)
+                        free(s);
                 } else {
                     idx = safec_atoa(out, funcname, buffer, idx, bufsize,
                                      va_arg(va, double), precision, width,
@@ -1536,9 +1559,9 @@ int safec_vsnprintf_s(out_fct_type out, const char *funcname, char *buffer,
             if (l + idx > bufsize) {
                 char msg[80];
                 snprintf(msg, sizeof msg, "%s: %%s arg exceeds dmax", funcname);
-                invoke_safe_str_constraint_handler(msg, buffer, ESNOSPC);
                 if (flags & FLAGS_LONG)
-                    free(p);
+                    free(p); /* before the report: the handler need not return */
+                invoke_safe_str_constraint_handler(msg, buffer, ESNOSPC);
                 return -(ESNOSPC);
             }
             // pre padding
